@@ -75,6 +75,12 @@ def units(tier, seed):
         for m in range(1, 13):
             us.append({"kind": "m2d", "year": y, "month": m, "tier": tier})
     us.append({"kind": "guards"})
+    # size classes beyond the exhaustive bound: structured series with the same per-run reference
+    for n in ([1000, 20011] if tier == "quick" else [1000, 100003, 1000003]):
+        for runlen in (1, 7, 366):
+            if n > 200000 and runlen != 366:
+                continue
+            us.append({"kind": "aggbig", "n": n, "runlen": runlen, "seed": seed})
     return us
 
 
@@ -408,8 +414,29 @@ def run_guards(unit, ctx):
             ctx.violation("%s:length-mismatch-wrong-exception" % fname, case, repr(e))
 
 
+def run_aggbig(unit, ctx):
+    """long structured series: runs of fixed length (last one partial), values cycle through the
+    finite alphabet with a NaN every 11th (shifted by the seed) position; labels yyyymm-like and large"""
+    from hydrodiy.data import dutils
+    n, L, seed = unit["n"], unit["runlen"], unit["seed"]
+    fin = [v for v in VALS if not math.isnan(v)]
+    vals = [fin[(i * 3 + seed) % len(fin)] for i in range(n)]
+    for i in range((5 + seed) % 11, n, 11):
+        vals[i] = float("nan")
+    nruns = (n + L - 1) // L
+    runs = [L] * (n // L) + ([n % L] if n % L else [])
+    groups = ref_groups(runs, vals)
+    for scheme in ((199501, 1), (I32MAX - (nruns - 1), 1)):
+        cb = {"kind": "aggbig", "n": n, "runlen": L, "seed": seed, "scheme": list(scheme)}
+        ctx.case(False, n=0, sample=cb)
+        check_agg_case(ctx, dutils, runs, scheme, vals, groups, cb)
+
+
 def run_unit(unit, ctx):
     k = unit["kind"]
+    if k == "aggbig":
+        run_aggbig(unit, ctx)
+        return
     if k == "agg":
         run_agg_unit(unit, ctx)
     elif k == "aggdev":
@@ -434,6 +461,8 @@ def replay(case):
         if not any(math.isnan(v) for v in vals):
             check_inversions(ctx, dutils, runs, vals, cb)
             check_goue(ctx, dutils, signatures, runs, vals, groups, cb)
+    elif k == "aggbig":
+        run_aggbig(case, ctx)
     elif k == "m2d":
         check_m2d_case(ctx, dutils, case["year"], case["month"], case["vals"], case["interp"])
     elif k == "guard":
